@@ -171,7 +171,22 @@ declarations:
 """
 
 
+def spliced_small():
+    """SMALL_CXX with user code for blocks that every library has (and for one of its own functions) in each language: a later
+    library processed in the same interpreter has blocks of the same names and must keep its own generated text."""
+    import yaml as _y
+    d = _y.safe_load(libs.SMALL_CXX)
+    d["splicer_code"] = {
+        "c": {"CXX_definitions": ["// user code of library Small"], "function": {"add_one": ["return 4711;"]}},
+        "f": {"module_top": ["integer, parameter :: SMALL_USER = 20"], "function": {"add_one": ["SHT_rv = 4711"]}},
+        "py": {"function": {"add_one": ["return nullptr;  // user"]}},
+        "lua": {"function": {"addOne": ["return 0;  // user"]}},
+    }
+    return _y.safe_dump(d, sort_keys=False)
+
+
 ALPHABET = [
+    ("small-spliced", spliced_small(), []),
     ("structclass", STRUCT_CLASS, []),
     ("csmall", libs.SMALL_C, []),
     ("small", libs.SMALL_CXX, []),
@@ -289,9 +304,10 @@ def cli_run(args):
         fp.write(text)
     stale = {}
     if dirty:
-        for fn in dirty:
-            with open(os.path.join(workdir, "out", fn), "w") as fp:
-                fp.write("STALE CONTENT THAT MUST NOT SURVIVE\n" * 400)
+        # dirty: {file name: bytes already in the output directory}
+        for fn, content in dirty.items():
+            with open(os.path.join(workdir, "out", fn), "wb") as fp:
+                fp.write(content)
         stale = {"keep_me.txt": b"user file\n"}
         with open(os.path.join(workdir, "out", "keep_me.txt"), "wb") as fp:
             fp.write(stale["keep_me.txt"])
@@ -493,8 +509,18 @@ def run(ctx):
         add("env-A", {"PYTHONHASHSEED": "0", "HOME": "/nonexistent/a", "USER": "alice", "HOSTNAME": "hosta", "LANG": "C", "TZ": "UTC", "SOURCE_DATE_EPOCH": "1"})
         add("env-B", {"PYTHONHASHSEED": "0", "HOME": "/tmp", "USER": "bob", "HOSTNAME": "hostb", "LANG": "en_US.UTF-8", "LC_ALL": "C.UTF-8", "TZ": "Asia/Tokyo", "SOURCE_DATE_EPOCH": "1700000000",
                       "PYTHONOPTIMIZE": "1", "PYTHONDONTWRITEBYTECODE": "1", "PYTHONUNBUFFERED": "1", "COLUMNS": "40"})
-        stale = sorted(k2 for k2 in fresh[[a[0] for a in alphabet].index(name)] if "/" not in k2)
-        add("dirty-outdir", {"PYTHONHASHSEED": "0"}, dirty=stale)
+        # what an earlier run may have left under the same names: unrelated text, nothing, the first half of the right text (an
+        # interrupted run), the right text with something appended (a longer earlier version), the right text itself
+        good = {k2: v for k2, v in fresh[[a[0] for a in alphabet].index(name)].items() if "/" not in k2}
+
+        def half(b):
+            lines = b.split(b"\n")
+            return b"\n".join(lines[: len(lines) // 2]) + b"\n"
+        add("dirty-outdir", {"PYTHONHASHSEED": "0"}, dirty={k2: b"STALE CONTENT THAT MUST NOT SURVIVE\n" * 400 for k2 in good})
+        add("dirty-outdir-empty", {"PYTHONHASHSEED": "0"}, dirty={k2: b"" for k2 in good})
+        add("dirty-outdir-truncated", {"PYTHONHASHSEED": "0"}, dirty={k2: half(v) for k2, v in good.items()})
+        add("dirty-outdir-longer", {"PYTHONHASHSEED": "0"}, dirty={k2: v + b"left over from a longer version\n" for k2, v in good.items()})
+        add("dirty-outdir-same", {"PYTHONHASHSEED": "0"}, dirty=dict(good))
     cres = isolate.pmap(cli_run, jobs, W)
     ref = {}
     ref_abs = {}
